@@ -312,6 +312,148 @@ def gen_history_scenario(r):
     return {'op': 'serve', 'start': start, 'files': files, 'requests': reqs}
 
 
+# ----------------------------------------------------------------------------- sessions started through the command lines
+# The five console entry points (nbdime.webapp.{nbdimeserver,nbdiffweb,nbmergeweb,nbdifftool,nbmergetool}.main) decide which
+# KIND of session a server is: a plain / diff-web / merge-web server answers for the notebooks named in each request, a
+# diff-tool / merge-tool server answers for the files fixed on its command line.  `start['params']` below is the generator's
+# OWN reading of the documented command line (what kind of session the user asked for); the runner does not pass it to
+# main_server, it calls `main(argv)` of the real entry module, so that a mistake in the entry point's translation of its
+# arguments into server parameters is judged like any other misbehaviour of the session.
+ENTRY_MODULES = ['nbmergeweb', 'nbdiffweb', 'nbmergeweb', 'nbmergetool', 'nbdifftool', 'nbmergeweb', 'nbdimeserver', 'nbdiffweb']
+
+
+def gen_entry_start(r, module):
+    p = {'port': 0, 'ip': '127.0.0.1'}
+    argv = []
+    # options common to every web command
+    bu = r.choice(BASE_URLS)
+    if bu != '/' or r.random() < 0.3: argv += ['--base-url', bu]
+    p['base_url'] = bu
+    wk = r.random()
+    if wk < 0.45: p['cwd'] = '{ROOT}/work'                               # default: the directory the command is run from
+    elif wk < 0.7: argv += ['-w', '{ROOT}/work']; p['cwd'] = '{ROOT}/work'
+    elif wk < 0.8: argv += ['--workdirectory', '{ROOT}/work/']; p['cwd'] = '{ROOT}/work/'
+    elif wk < 0.9: argv += ['-w', '{ROOT}/work/sub']; p['cwd'] = '{ROOT}/work/sub'
+    else: argv += ['-w', '.']; p['cwd'] = '.'
+    if module == 'nbdimeserver' or r.random() < 0.4: argv += [r.choice(['-p', '--port']), '0']
+    if r.random() < 0.2: argv += ['--ip', '127.0.0.1']
+    if r.random() < 0.2: argv += ['--show-unchanged']
+    if r.random() < 0.2: argv += ['--identical-lines-margin', r.choice(['0', '5'])]
+    persist = module != 'nbdimeserver' and r.random() < 0.3
+    if persist: argv += ['--persist']
+    in_sub = p['cwd'] == '{ROOT}/work/sub'
+    names = ['d.ipynb', '../a.ipynb', '../b.ipynb', '../c.ipynb'] if in_sub else VALID_NAMES
+    if module == 'nbdimeserver':
+        mode = 'plain'                                                   # never closable, nothing can be stored
+        posted = None
+    else:
+        p['closable'] = not persist
+    if module == 'nbdiffweb':
+        mode = 'diffweb'
+        # two file names (existing files of the start-up directory, so that they are not taken for git revisions)
+        a, b = r.choice(VALID_NAMES), r.choice(VALID_NAMES)
+        argv += [a, b]
+        posted = ('diff', {'base': a, 'remote': b})
+    elif module == 'nbmergeweb':
+        mode = 'mergeweb'
+        tri = {k: r.choice(names) for k in ('base', 'local', 'remote')}
+        if r.random() < 0.6: tri = dict(zip(('base', 'local', 'remote'), names[:3] if not in_sub else names[1:]))
+        out = r.choice(['out.ipynb', 'out.ipynb', 'sub/out.ipynb', '{ROOT}/third/out.ipynb', 'new.ipynb', None, None, None, '../bait/out.ipynb', './out.ipynb'])
+        if r.random() < 0.3: argv += ['--no-base']
+        pos = [tri['base'], tri['local'], tri['remote']]
+        if out is not None and r.random() < 0.5: argv += ['--out', out] + pos
+        elif out is not None: argv += pos + ['--out=' + out]
+        else: argv += pos
+        p['outputfilename'] = out
+        posted = ('merge', tri)
+    elif module == 'nbdifftool':
+        mode = 'difftool'
+        pool = names + (['junk.ipynb', 'missing.ipynb', '/dev/null', 'empty.ipynb'] if r.random() < 0.25 else [])
+        d = {'base': r.choice(pool), 'remote': r.choice(pool)}
+        argv += [d['base'], d['remote']]
+        p['difftool_args'] = d
+        posted = ('diff', {})
+    elif module == 'nbmergetool':
+        mode = 'mergetool'
+        pool = names + (['junk.ipynb', 'missing.ipynb', 'empty.ipynb', '/dev/null'] if r.random() < 0.25 else [])
+        d = {k: r.choice(pool) for k in ('base', 'local', 'remote')}
+        out = r.choice(['out.ipynb', 'out.ipynb', 'sub/out.ipynb', 'new.ipynb', d['local'] if d['local'] in names else 'out.ipynb', '{ROOT}/third/out.ipynb'])
+        argv += [d['base'], d['local'], d['remote'], out]
+        p['mergetool_args'] = d; p['outputfilename'] = out
+        posted = ('merge', {})
+    return {'mode': mode, 'params': p, 'chdir': 'work', 'entry': {'module': module, 'argv': argv}}, posted
+
+
+def differs_from(r, names, given, pool):
+    """a request body over `names` drawn from pool that is not `given`"""
+    for _ in range(20):
+        d = {n: r.choice(pool) for n in names}
+        if any(d[n] != given.get(n) for n in names): return d
+    return d
+
+
+def gen_entry_scenario(r, k):
+    """A session started by one of the console commands (module k of ENTRY_MODULES, cyclically), asked
+       1. what the page it opens posts (the start-up names),
+       2. about OTHER notebooks, about a MIX of start-up and other notebooks, and with malformed bodies of every kind,
+          for both notebook endpoints (a web session answers for the request, a tool session for its command line),
+       3. to store (with bait paths), and finally the first request again, and possibly to close."""
+    module = ENTRY_MODULES[k % len(ENTRY_MODULES)]
+    files, nbs = gen_files(r)
+    start, posted = gen_entry_start(r, module)
+    bu = start['params']['base_url']
+    prefix = '' if bu == '/' else bu.rstrip('/')
+    own = 'merge' if start['mode'] in ('mergeweb', 'mergetool') else 'diff' if start['mode'] in ('diffweb', 'difftool') else r.choice(['diff', 'merge'])
+    NAMES = {'diff': ['base', 'remote'], 'merge': ['base', 'local', 'remote']}
+    in_sub = start['params']['cwd'] == '{ROOT}/work/sub'
+    pool = ['d.ipynb', '../a.ipynb', '../b.ipynb', '../c.ipynb', '../sub/d.ipynb', '{ROOT}/work/b.ipynb', '/dev/null', '../../bait/z.ipynb'] if in_sub else NB_ARGS_VALID
+    def post(ep, d, kind): return {'method': 'POST', 'path': prefix + '/api/' + ep, 'body': jbody(d), 'kind': 'entry:' + ep + ':' + kind}
+    reqs = []
+    first = None
+    if posted is not None:
+        first = post(posted[0], posted[1], 'as-the-page-posts')
+        reqs.append(first)
+    given = posted[1] if posted is not None else {}
+    names = NAMES[own]
+    # other notebooks, and a mix of start-up and other notebooks
+    reqs.append(post(own, with_extra(r, differs_from(r, names, given, pool)), 'other-names'))
+    mixed = differs_from(r, names, given, pool)
+    if given:
+        keep = r.choice(names); mixed[keep] = given.get(keep, mixed[keep])
+    reqs.append(post(own, mixed, 'mixed-names'))
+    # malformed requests for the session's own endpoint: one of each kind in turn over the family, plus random ones
+    d = differs_from(r, names, given, pool)
+    bad_kinds = ['missing-key', 'unreadable-file', 'non-string-arg', 'malformed-json', 'non-object-body', 'non-utf8-body', 'start-up-names-but-one-missing']
+    for bk in (bad_kinds[(k // len(ENTRY_MODULES)) % len(bad_kinds)], r.choice(bad_kinds)):
+        rq = {'method': 'POST', 'path': prefix + '/api/' + own, 'kind': 'entry:' + own + ':' + bk}
+        dd = dict(d)
+        if bk == 'missing-key': del dd[r.choice(names)]; rq['body'] = jbody(dd)
+        elif bk == 'unreadable-file': dd[r.choice(names)] = r.choice(NB_ARGS_BAD); rq['body'] = jbody(dd)
+        elif bk == 'non-string-arg': dd[r.choice(names)] = r.choice(NON_STR); rq['body'] = jbody(dd)
+        elif bk == 'malformed-json': rq['body'] = r.choice(RAW_BAD)
+        elif bk == 'non-object-body': rq['body'] = r.choice(NON_DICT)
+        elif bk == 'non-utf8-body': rq['body_b64'] = 'gHsifQ=='
+        else:
+            dd = dict(given) if given else dd
+            dd.pop(r.choice(sorted(dd)), None); rq['body'] = jbody(dd)
+        reqs.append(rq)
+    # the other notebook endpoint, a store, something else
+    other = 'diff' if own == 'merge' else 'merge'
+    reqs.append(gen_nb_request(r, other, NAMES[other], prefix))
+    reqs.append(gen_store_request(r, nbs, prefix))
+    if r.random() < 0.5: reqs.append(gen_other_request(r, prefix, bu))
+    r.shuffle(reqs)
+    if first is not None:
+        reqs.remove(first); reqs.insert(0, first)
+        reqs.append(copy.deepcopy(first))
+    else:
+        reqs.append(copy.deepcopy(reqs[0]))
+    if r.random() < 0.4: reqs.append(gen_close_request(r, prefix))
+    for rq in reqs:
+        if rq['method'] == 'GET': rq.pop('body', None)
+    return {'op': 'serve', 'start': start, 'files': files, 'requests': reqs}
+
+
 def f12_scenario():
     """the refutation witness of Sys/ServerProofs.v (Witness.bad_store) as a real session"""
     import random
